@@ -835,11 +835,19 @@ class TlvModel(metaclass=TlvModelMeta):
                     field_pos = i
                     offset += length
 
-                    offset_btl = offset
-                    typ, size_typ = parse_tl_num(wire, offset)
-                    offset += size_typ
-                    length, size_len = parse_tl_num(wire, offset)
-                    offset += size_len
+                    while True:
+                        offset_btl = offset
+                        typ, size_typ = parse_tl_num(wire, offset)
+                        offset += size_typ
+                        length, size_len = parse_tl_num(wire, offset)
+                        offset += size_len
+                        if typ == cur_field.value_type.type_num:
+                            break
+                        # An unrecognized element between a key and its value
+                        if (typ & 1) == 1 and not ignore_critical:
+                            raise DecodeError(f'a critical field of type {typ} is unrecognized, '
+                                              f'redundant or out-of-order')
+                        offset += length
 
                     val = cur_field.parse_value(ret, markers, wire, offset, length, offset_btl)
                     cur_field.__set__(ret, val)
